@@ -228,6 +228,29 @@ def simp(t):
     return z3.simplify(t)
 
 
+def seq_at(seq, i):
+    """seq[i] with concatenations resolved structurally (the seq solver is weak on nth over concat)"""
+    seq = simp(seq)
+    if z3.is_app(seq):
+        k = seq.decl().kind()
+        if k == z3.Z3_OP_SEQ_UNIT:
+            return seq.arg(0)
+        if k == z3.Z3_OP_SEQ_CONCAT:
+            parts = seq.children()
+            off = z3.IntVal(0)
+            res = None
+            # build from the last part backwards: If(i < end_0, p0[i], If(i < end_1, p1[i-len0], ...))
+            ends = []
+            for p in parts:
+                ends.append((off, p))
+                off = off + z3.Length(p)
+            res = seq_at(ends[-1][1], i - ends[-1][0])
+            for (o, p), (o2, _) in zip(reversed(ends[:-1]), reversed(ends[1:])):
+                res = z3.If(i < o2, seq_at(p, i - o), res)
+            return res
+    return seq[i]
+
+
 def tag_of(t):
     """constructor name if the term is syntactically a constructor application"""
     t = simp(t)
